@@ -54,7 +54,7 @@ def run(tier, seed, replay=None):
     from splipy import BSplineBasis, state
     import numpy as np
     rng = random.Random(seed)
-    nb = 250 if tier == 'quick' else 6000
+    nb = 500 if tier == 'quick' else 6000
     tolf = state.knot_tolerance
     tol = C.fr(tolf)
     cases = []
